@@ -146,6 +146,8 @@ TStep ==
           /\ Chk("C05", "NoBalanceInvariantBroken", e.ev = "Tick" \/ e.code # 1000, "-", e)
           /\ Chk("C05", "NoPanic", e.ev = "Tick" \/ e.class # "panic", "-", e)
           /\ Chk("C14", "VestShape", VestShape(e.st), "-", e)
+          /\ Chk("C14", "VestNotOverdue", \A i \in Idx(e.st.miners) : e.st.miners[i].m \in G'.lost \/ ~G'.fresh[e.st.miners[i].m]
+                                                \/ VestNotOverdue(e.st, e.st.miners[i]), "-", e)
           /\ Chk("C14", "RewardVestsOnSchedule", RewardVestsOnSchedule(Wd, e), "-", e)
           /\ Chk("C14", "NoEarlyUnlock", NoEarlyUnlock(Wd, e), "-", e)
           /\ Chk("C14", "WithdrawBounded", WithdrawBounded(Wd, e), "-", e)
